@@ -165,6 +165,24 @@ def run_case(case):
         in_types = {'a': t}
         # (select_with is a library function, not an operator/method of the primitive types: C02 covers it)
         exprs = [e for e in c02.unary_exprs(t) if not (e[0] == 'un' and e[1] in ('not',)) and e[0] != 'selw']
+    # a left shift by an Unsigned[w] amount has 2**w - 1 extra result bits: beyond w = 6 the bit-object representation of
+    # the Python level needs gigabytes (a 25 GB worker was observed for Unsigned[64] << Unsigned[17]); not generated
+    def huge_shift(e):
+        if isinstance(e, tuple):
+            if e and e[0] == 'bin' and e[1] == '<<':
+                try:
+                    t = eg.static_type(e[3], in_types)
+                except eg.Reject:
+                    t = None
+                if t is not None and t[0] in ('u', 's', 'bv') and (t[1] or 0) > 6:
+                    return True
+            return any(huge_shift(x) for x in e if isinstance(x, (tuple, list)))
+        if isinstance(e, list):
+            return any(huge_shift(x) for x in e)
+        return False
+    n0 = len(exprs)
+    exprs = [e for e in exprs if not huge_shift(e)]
+    cnt['huge_shift_skipped'] += n0 - len(exprs)
     vals, exhaustive = ed.valuations(in_types, rnd, exhaustive_bits=10, samples=200)
     # ---- D: direct results; keep expressions that succeed on at least one valuation with one stable type
     table = []
